@@ -5,6 +5,7 @@ C17 driver.  Case lines (shared with harness/c17/c17.c):
                ureloc size=.. f=<13 offsets>                                        real locate_out / locate_in
                upatch pad=.. sp=<addresses> sw=<idx:addr,..>;<..>                   real patch_in
                utimes <binary mtime> <file mtime|none> <path>                       real check_times
+               uqsort sz=<4|8|10> m=<domain> v=<values> c=<m*m of - 0 +>            real quickSort (lib/misc/qsort.c)
   system style clean <dir> | file <path> <hex> | mtime <path> <t> | now <t> | intern <hex>.. |
                prog <name.c> save=<0|1> inc=<a,b|-> inh=<a.c,b.c|->  (what a compile of the program records) |
                restart <family>.. | calls <fn[:arg..]>.. | reload <top> <family>..
@@ -39,7 +40,7 @@ def runUsort (ts : List String) : List String :=
               numCompressed := (kv ts "nc").toNat?.getD 0, numDeleted := (kv ts "nd").toNat?.getD 0,
               index := csvNat (kv ts "ix") },
       typeStart := if tsl.isEmpty then none else some tsl }
-  match sortFunctionTable cfLe p with
+  match sortFunctionTable cfLt p with
   | none => ["crash sanitizer"]
   | some o =>
     [s!"ft {showCsv (o.table.map (·.tag))}", s!"of {showCsv (o.offs.map toString)}",
@@ -83,6 +84,19 @@ def runUpatch (ts : List String) : List String :=
         let idxOf (p : Int) : Int := if p == 0 then -1 else ((indexOfPtr sp p).map (fun i => (i : Int))).getD (-2)
         some s!"sw {k} {showCsv (es.map (fun e => s!"{idxOf e.key}:{e.addr}"))}")
   if outs.all Option.isSome then outs.filterMap id else ["crash sanitizer"]
+
+/-- `uqsort`: the model of qsort.c on elements (value, original position) with the comparison table of the case -/
+def runUqsort (ts : List String) : List String :=
+  let v := csvNat (kv ts "v")
+  let m := (kv ts "m").toNat?.getD 1
+  let sz := (kv ts "sz").toNat?.getD 4
+  let c := (kv ts "c").toList
+  let lt (x y : Nat × Nat) : Bool := c.getD (x.1 * m + y.1) '0' == '-'
+  let els : List (Nat × Nat) := (List.range v.length).map (fun i => (v.getD i 0, i))
+  match quickSortL lt els with
+  | none => ["crash sanitizer"]
+  | some out =>
+    [s!"qs {showCsv (out.map (fun e => if sz > 4 then s!"{e.1}:{e.2}" else toString e.1))}"]
 
 def runUtimes (ts : List String) : List String :=
   match ts with
@@ -154,7 +168,7 @@ def predictDump (f b : List (List String)) : Option (List (List String)) := do
   let p : FunTabs CF String :=
     { table := table, flags := csvNat (((fd.kind "fl").headD []).headD "-"), offs := offs, ct := ct,
       typeStart := if hasTs then some (fcf.map tsOf) else none }
-  let o ← sortFunctionTable cfLe p
+  let o ← sortFunctionTable cfLt p
   let tsNew : List String := match o.typeStart with
     | some l => l
     | none => fcf.map tsOf       -- no type_start array: "-1 -" for every function, order irrelevant
@@ -302,6 +316,7 @@ def sysLine (m : MState) (line : String) : MState :=
   | "usort" :: rest => (runUsort rest).foldl MState.emit m
   | "ureloc" :: rest => (runUreloc rest).foldl MState.emit m
   | "upatch" :: rest => (runUpatch rest).foldl MState.emit m
+  | "uqsort" :: rest => (runUqsort rest).foldl MState.emit m
   | "utimes" :: rest => (runUtimes rest).foldl MState.emit m
   | _ => if line.startsWith "#" then m else m.emit s!"badcmd {line}"
 
